@@ -180,3 +180,37 @@ end
 
 end TaskArgs
 end Pytask
+
+namespace Pytask
+namespace TaskArgs
+open PyTree
+
+namespace Dict
+variable {X Y : Type}
+
+theorem get_append (d e : Dict X) (k : String) : get (d ++ e) k = (get d k).or (get e k) := by
+  induction d with
+  | nil => simp [get]
+  | cons kv rest ih =>
+    obtain ⟨k0, x0⟩ := kv
+    simp only [List.cons_append, get, ih]
+    by_cases h : k0 = k <;> simp [h]
+
+theorem get_map_vals (f : X → Y) (d : Dict X) (k : String) :
+    get (d.map (fun kv => (kv.1, f kv.2))) k = (get d k).map f := get_mapVals f d k
+
+theorem get_foldl_set (f : String → X) : ∀ (names : List String) (acc : Dict X) (k : String),
+    get (names.foldl (fun acc n => set acc n (f n)) acc) k = if k ∈ names then some (f k) else get acc k
+  | [], acc, k => by simp
+  | n :: rest, acc, k => by
+    simp only [List.foldl_cons]
+    rw [get_foldl_set f rest (set acc n (f n)) k, get_set]
+    by_cases h1 : k ∈ rest
+    · simp [h1]
+    · by_cases h2 : n = k
+      · subst h2; simp [h1]
+      · simp [h1, h2, Ne.symm h2]
+
+end Dict
+end TaskArgs
+end Pytask
